@@ -2,7 +2,7 @@
 CHECK = {'level': 'exploration',
  'rule': 'two generators feed one in-target oracle: (1) libFuzzer (coverage-guided, dictionary of CIF keywords/delimiters/BOMs/malformed UTF-8, seeded with /repo/test-data) '
          'mutating bytes whose last 12 bytes decode the parse options and the accept/reject tape of the error callback; (2) rapidcheck: grammar-generated documents damaged '
-         'by 1-4 byte/token edits, truncated repository test files, random bytes, re-encoded as UTF-16/32 with or without BOM, with generated options; '
+         'by 1-4 byte/token edits, truncated repository test files, random bytes, re-encoded as UTF-16/32 with or without BOM, huge tokens (66 000-270 000 units), tokens ending exactly on a 4096-byte read boundary followed by undecodable bytes or a lone surrogate (forced CESU-8), with generated options; '
          'non-trivial = at least one error was reported and the parse went on to return CIF_OK; distinct = hash of (input, options)',
  'assumptions': ['valid options only: encoding names known to ICU, extra whitespace/eol characters from the documented set',
                  'cif_walk of a CIF holding packet-less loops may return CIF_EMPTY_LOOP until cif_container_prune has run',
